@@ -8,6 +8,8 @@
   C06.c pointers     the two bytes pushed for a pointer are (ref >> 8) | 0xc0 and ref & 0xff of the offset returned by the dictionary;
                      an offset is stored in the dictionary only under `offset < 16384` (exact constant, test dominating the store and
                      every lookup result) so it fits 14 bits; a pointer replaces only suffixes of >= 3 bytes, so a name never grows
+  C06.d bounded copies   no copy from the input packet into the output below compress() takes an open-ended range packet[a..] (inside the
+                     record walk that would emit everything behind the current record twice: the packet grows and is no longer accepted)
 
 Not decided: case-insensitive matching, that decompressing gives the input back, the 16-indirection budget of the output
 (design note D18), table wrap-around behaviour.
@@ -148,5 +150,6 @@ def run(ctx):
         reemit.accounting_rule(ctx, facts, cfg, 'C06.b', CR, havoc=8, opaque=['SuffixDict::insert'])
         reemit.fixed_parts_rule(ctx, facts, cfg, 'C06.b', CR)
         reemit.cursor_rule(ctx, facts, cfg, 'C06.b', ['compress::Compress::compress'])
+        reemit.open_ended_rule(ctx, facts, cfg, 'C06.d', 'compress::Compress::compress', ('compress::',), 6, 'the compressor')
         pointer_rule(ctx, facts, cfg)
     ctx.trust('analysis/interp.py contracts; SuffixDict::insert treated as opaque for the accounting (its result is any Option<usize>)')
